@@ -1,4 +1,5 @@
 import GopModel.Driver.Loop
 import GopModel.Driver.DetSched
+import GopModel.Driver.LineDir
 open GopModel.Driver
-def main : IO Unit := runDriver (dispatchWith [("sched", handleSched)])
+def main : IO Unit := runDriver (dispatchWith [("sched", handleSched), ("posfor", handlePosFor), ("posfor1", handlePosFor1)])
